@@ -14,6 +14,88 @@ CHECKS = {
             "boundary product x payload pool plus seeded random messages/lines and compares against an independent "
             "formatter; held-on-observed, not a proof.",
             "Trusts marshmallow and the harness formatter; payload alphabet is a finite sample of Unicode.", "4/C01"),
+    "C02": ("exploration", "independent recognizer (must-accept / must-reject / either) as runtime oracle", "gens",
+            "Every line of a bounded field-alphabet enumeration plus random mutations is decoded by the real schema and "
+            "gateway and judged by a recognizer written from the statement; exception classes are monitored at both "
+            "boundaries.",
+            "Lenient integer spellings are an open point (accept-with-int()-value or reject); recognizer is trusted.", "4/C02"),
+    "C03": ("exploration", "exception-class monitor at listen()/read() boundary, probe-after-error, Director schedules", "lockstep",
+            "Observes the class of everything raised by Gateway.listen().__anext__() and StreamTransport.read() over state x "
+            "message x payload products, malformed lines, raw byte streams through a real StreamReader, MQTT receive hooks and "
+            "under concurrent send() interleavings; a probe line after each error must be processed as the model says.",
+            "Recovery after transport-level errors (EOF, over-long line) is not demanded.", "4/C03"),
+    "C04": ("exploration", "lockstep reference model, bounded-exhaustive + random histories", "lockstep",
+            "Real Gateway and an executable model written from the statements are stepped together; outcome class, ids named "
+            "by errors, yielded fields and the whole registry are compared after every step; one persistent listen() iterator "
+            "checks exactly-once in-order yields.",
+            "Model open points (DESIGN 2.3) follow the implementation; exhaustive only up to the stated length/alphabet.", "4/C04"),
+    "C05": ("exploration", "agreement invariant after every step + release-grid and type-gate sweeps", "lockstep",
+            "Asserts protocol == newest supported <= major.minor(protocol_version) after every step of every history and "
+            "probes the active rules behaviourally with boundary type numbers; independent integer-tuple version map.",
+            "Non-release version strings are an open point (reject, or accept consistently).", "4/C05"),
+    "C06": ("exploration", "reaction projection of the lockstep trace, time replies bracketed under 6 time zones", "lockstep",
+            "The multiset of lines written per received line (minus C10/C07 projections) must equal the model's reaction "
+            "table for all single-step state x message pairs and random histories, repeated under tzset() zones.",
+            "Write order inside a step is not compared; time reply checked by bracketing, not equality.", "4/C06"),
+    "C07": ("exploration", "sleep-buffer projection of the lockstep trace with unique payloads", "lockstep",
+            "All sequential interleavings of sends / wakes / non-wakes up to a bound on 2.0/2.1/2.2 (and 1.x with restored "
+            "sleeping flag) against the model buffer; unique payloads make every write identify its send.",
+            "'most recently sent' read as most recently parked.", "4/C07"),
+    "C08": ("fault_enumeration", "every subset of failing write attempts, conservation checker over the write log", "transports",
+            "Enumerates every subset of failing Transport.write attempts (first 5/8) for every buffered-set shape and wake "
+            "sequence; checks fault reported as transport error, parked = written_ok + still_parked, nothing twice, nothing lost "
+            "after fault-free wakes.",
+            "Faults are raised after the write call is logged; release order is free.", "4/C08"),
+    "C09": ("exploration", "Director: all schedules of gate releases and sender starts, per-key unique-value history checker", "sched",
+            "Every suspension point is a Transport.write gate; stateless DFS enumerates every choice sequence for bounded "
+            "configurations (plus random schedules for larger ones) on the real Gateway; last-written = last-sent, no phantom, "
+            "no duplicate, no deadlock.",
+            "Exhaustive only for the bounded configurations listed in the evidence; write order = call order.", "4/C09"),
+    "C10": ("fault_enumeration", "type-19 projection of the lockstep trace x subsets of failing request writes", "lockstep",
+            "All histories up to a bound over 16 message kinds from known/unknown nodes x every subset of failing "
+            "presentation-request writes (first three) x five versions against the model's outstanding-request set.",
+            "Which library error surfaces on a failed request write is open.", "4/C10"),
+    "C11": ("exploration", "freshness invariant asserted inside the Transport.write boundary, allocator-agnostic", "lockstep",
+            "For registry shapes x request sequences: id in 1..254, not registered before, never handed out twice, registered "
+            "at the moment the response is written (checked inside write), addressed like the request; TooManyNodes clauses.",
+            "Does not predict which id is chosen.", "4/C11"),
+    "C12": ("exploration", "three-way outcome classification of every send from the boundary log", "transports",
+            "Every command x every type number x flag x destination state x version: written-now / library error / held and "
+            "written at next wake (after protocol switches, other traffic, a failing flush write) / else violation; non-message "
+            "objects must raise InvalidMessageError.",
+            "1.x has no wake message: held commands there are only checked for 'not written when sent'.", "4/C12"),
+    "C13": ("exploration", "save/load through real files, structural comparison, legacy-layout translator", "gens",
+            "Registries reached by random message histories and direct construction are saved with the real Persistence to "
+            "real files and loaded back (native and legacy layout) and compared attribute by attribute with types.",
+            "Legacy equivalence defined for sleeping=False.", "4/C13"),
+    "C14": ("exploration", "mutated / truncated / garbage files against the real loader, exception-class monitor", "gens",
+            "Every byte prefix, every single-subtree mutation, key renames, random JSON, raw byte garbage, directory path, "
+            "missing and empty file through Persistence.load and Gateway.__aenter__; only PersistenceReadError may escape.",
+            "Permission-denied files cannot be produced as root; a directory path stands in.", "4/C14"),
+    "C15": ("fault_enumeration", "strace op-log recorder, prefix + torn-write crash-state replay judged by the real loader", "fsrec",
+            "Records the real syscall sequence of one save with strace, replays every prefix and torn write onto the pre-state "
+            "and runs the real load on each crash state; replayer validated against the real final directory on every run; "
+            "thorough adds live SIGKILLs. One open known finding (save-truncates-live-file).",
+            "Crash model is process death, not power loss; needs ptrace (else inconclusive).", "4/C15"),
+    "C16": ("exploration", "VLoop exit-moment sweep (virtual time, inline executor), cadence run, real-time stress", "sched",
+            "Leaves `async with Gateway` after every k loop iterations x fault mode x file state x transport on a deterministic "
+            "loop, enumerates connect failures of several exception classes, runs virtual hours for the 15-minute cadence, and "
+            "stress-runs real thread-pool contexts over scripted/TCP/serial/MQTT transports with timing-independent oracles.",
+            "k sweep covers a range without assuming where the saver is at a given k; cadence bound 900 s + poll interval.", "4/C16"),
+    "C17": ("exploration", "chunked byte streams vs reference splitter; loopback TCP and pty peers; fault positions", "gens",
+            "All chunkings of short streams and random streams through a real StreamReader, a loopback server and a pty; "
+            "written bytes compared at the peer; refused connect, peer reset, EOF, over-long line, use-before-connect.",
+            "Line at exactly the reader limit is either; after EOF/over-long only ordering is demanded.", "4/C17"),
+    "C18": ("exploration", "hook-level mapping monitor, FIFO checker, fake aiomqtt client on VLoop with logical-deadlock detector, mini broker", "mqttfake",
+            "Topic/payload/QoS of every publish, subscription coverage via paho's matcher, echo round trip, exactly-once FIFO of "
+            "messages and errors; scripts of deliveries/errors/reads/disconnect on a fake client where a read that can never "
+            "complete is a logical deadlock (deaf); thorough: real aiomqtt+paho against an in-process MQTT 3.1.1 broker.",
+            "After a broker error nothing further is demanded; fake client installed via the module attribute seam.", "4/C18"),
+    "C19": ("exploration", "differential lockstep of two real gateways (older version is the reference)", "lockstep",
+            "All 10 ordered version pairs: every type number of the older protocol in 4 states, all 2-step histories over a "
+            "34-symbol alphabet, random histories with sends; outcome, writes and registry compared per step with the stated "
+            "exclusions and the heartbeat translation.",
+            "Version reports are not generated; error text not compared.", "4/C19"),
 }
 
 PENDING_REASON = "check not built yet in this revision of /verif (work in progress; the property is within the technique's reach)"
@@ -65,8 +147,18 @@ def main() -> None:
 NOT_APPLICABLE: dict[str, str] = {}
 
 ENGINES = [
-    {"name": "gens", "path": "vf/gens.py", "serves_properties": ["C01", "C02", "C03"],
-     "kind_free_text": "seeded generators and pools for lines, payloads, numbers; independent wire spec in vf/spec.py"},
+    {"name": "gens", "path": "vf/gens.py", "serves_properties": ["C01", "C02", "C03", "C13", "C14", "C17"],
+     "kind_free_text": "seeded generators and pools for lines, payloads, numbers, files; independent wire spec in vf/spec.py"},
+    {"name": "lockstep", "path": "vf/lockstep.py", "serves_properties": ["C03", "C04", "C05", "C06", "C07", "C10", "C11", "C19"],
+     "kind_free_text": "real Gateway on a ScriptedTransport stepped together with the reference model vf/model.py; mismatches tagged per property"},
+    {"name": "transports", "path": "vf/harness.py", "serves_properties": ["C08", "C11", "C12"],
+     "kind_free_text": "ScriptedTransport: boundary recorder, fault plan, gate mode"},
+    {"name": "sched", "path": "vf/sched.py", "serves_properties": ["C03", "C09", "C16", "C18"],
+     "kind_free_text": "Director (controlled interleavings, stateless DFS) and vf/vloop.py (virtual time, inline executor, logical deadlock)"},
+    {"name": "fsrec", "path": "vf/fsrec.py", "serves_properties": ["C15"],
+     "kind_free_text": "strace syscall recorder + crash-state replayer"},
+    {"name": "mqttfake", "path": "vf/mqttfake.py", "serves_properties": ["C16", "C18"],
+     "kind_free_text": "fake aiomqtt client; vf/minibroker.py MQTT 3.1.1 subset broker for the real client stack"},
 ]
 
 if __name__ == "__main__":
